@@ -65,4 +65,10 @@ def case_ksize(case, op, half):
 
 
 if __name__ == "__main__":
+    import rust_harness
+    try:
+        rust_harness.build()           # the tree-backed twin is executed through the out-of-tree Rust harness
+    except SystemExit:
+        print("TOOL-FAILURE property=C11 rust harness does not build against the working tree")
+        sys.exit(2)
     streamlib.run_property("C11", mh, ["md5", "md5", "setops"], mh.oracle_md5, 1500, 60000, TB, AS, RULE, nontrivial=mh.nontrivial, extra=btree_md5)
